@@ -10,29 +10,42 @@ import itertools
 
 ID = "C06"
 LEVEL = "model_checking"
-RULE = ("(i) every instruction sequence of length <= 5 (thorough 6) over four small alphabets of the hand-built `example` target "
-        "(def/use/add/mov/cmp/use3 on <= 7 virtual registers named in first-definition order, pre-coloured R0/R1/R10 and the aliasing "
-        "half register R10l, half-register defs/uses, call-like clobbers, RegisterUseDef idioms, one conditional jump to every position) "
-        "allocated with 3 (and, shorter, 2 and 5) allocatable registers; (ii) every frame produced by ppci.api.cc for the C corpus "
-        "(vf/gen/ccorpus.py + register-pressure functions) on 13 target configurations at -O0 and -O2.  For each frame: fixpoint of "
-        "location -> set of source values over the final instruction list (all paths), every read checked; plus liveness-based "
-        "overlap check.  distinct non-trivial = distinct (target, allocator events (coalesced/constrained/frozen/spilled/rounds), "
-        "shape of the colouring) with at least one checked read of a defined value")
+RULE = ("(i) hand-built frames for the `example` target: every token sequence of each alphabet family (FAMILIES: core = def/use/add/mov/cmp/use3/jc "
+        "with 3 allocatable registers R0,R1,R10 + aliasing half register R10l; pre = + pre-coloured R0/R1 defs, uses, moves and call-like clobbers; "
+        "alias = + half-register defs/uses, pre-coloured R10/R10l, clobber of R10; usedef = + RegisterUseDef uses/defs/undefined-value markers; "
+        "k2 / k5 = mixed alphabet with 2 / 5 allocatable registers; lean = def/use/mov/use3/jc) up to length quick: core 5, pre/alias/usedef/k2 4, "
+        "k5 3; thorough: core/pre/alias/usedef/k2 5, lean 6, k5 4; <= 7 virtual registers named in order of first definition, sources taken from "
+        "registers defined earlier in the text, sources of commutative instructions ordered, at most one conditional jump (to every position, "
+        "forward and backward), at least one instruction that reads a virtual register; (ii) every frame ppci.api.cc produces for the C corpus "
+        "(vf/gen/ccorpus.py + 8 register-pressure functions: 12 live values, calls inside live ranges, loops, mixed 8/16/32/64-bit, pointers, "
+        "division, doubles) at -O0 and -O2, and ir_to_object produces for IR pressure modules (6/12 live values x plain/call/loop for every integer "
+        "type, all ordered pairs of integer types mixed), on 13 target configurations.  Each allocated frame: fixpoint of location -> set of "
+        "source values over the final instruction list (all paths), every read checked, plus a liveness-based overlap check.  "
+        "distinct non-trivial = distinct (target, allocator events coalesced/constrained/frozen/spilled/rounds, set of registers used, frame size) "
+        "among frames with at least one checked read of a defined value")
 ASSUMPTIONS = [
     "each instruction's used_registers / defined_registers / clobbers / jumps / ismove annotations are trusted (property C07 checks them); "
     "an instruction with `jumps` continues only at those instructions, any other instruction falls through",
+    "frame convention of ppci's selectors (and of FlowGraph): a label is entered only through explicit jumps, every block ends with a jump; the "
+    "hand-built frames insert an unconditional jump before each label accordingly",
     "the physical location of a register object after allocation is type(reg).from_num(reg.color); two locations overlap iff one is reachable "
     "from the other through the `aliases` attribute of the register definitions (own computation, not arch.info.alias)",
     "spill code is identified by wrapping MiniGen.gen_load/gen_store: the instruction of the returned sequence that (through moves) defines the "
-    "requested register is read as 'register := slot', the one that uses it as 'slot := register'; all other instructions of the sequence are "
-    "checked like ordinary instructions; distinct spill slots overlap iff their byte ranges overlap; other stack traffic is not modelled",
+    "requested register is read as 'register := slot', the one that uses it as 'slot := register'; registers the allocator created as stand-ins "
+    "for a spilled register only transport values (their reads are not judged, the reads of the original instructions are); helper temporaries "
+    "of spill sequences are checked like ordinary values; distinct spill slots overlap iff their byte ranges overlap; other stack traffic is not "
+    "modelled; a frame whose spill sequence cannot be interpreted this way is counted as unjudged, never a violation",
     "a value that has no definition on a path (upward-exposed virtual register, RegisterUseDef(defs=(vreg,)) 'undefined value' marker, copy of "
-    "such a value) may be read from anywhere on that path; a pre-coloured register holds its own value on entry",
+    "such a value) may be read from anywhere on that path; a pre-coloured register holds its own value on entry and after every write the "
+    "program itself directs at it or at an overlapping register (pre-coloured operand, clobber list)",
     "RegisterUseDef emits no code: its definitions do not invalidate the locations of its own uses (ppci's 'view part of a register' idiom)",
     "on targets whose register classes do not implement from_num (riscv, stm8) the location is the unique register of the virtual register's class "
     "hierarchy in arch.info.register_classes whose number equals the colour",
-    "frames on which alloc_frame raises (e.g. 'Give up after 30 spill rounds') are counted, not judged (that is property C29)",
+    "frames on which alloc_frame raises or does not finish are counted, not judged (that is property C29): exceptions, more than 6 (hand-built) / 8 "
+    "(real targets) spill rounds -- an unallocatable frame doubles in size every round and ppci gives up only after 30 -- and CPU limits of "
+    "20 s per hand-built frame / IR module and 60 s per C compilation",
     "hand-built frames use a stub instruction selector that answers MiniGen's spill trees with abstract slot-load / slot-store instructions",
+    "IR pressure modules use the operators among + - ^ | & for which the target can select a three-instruction probe function of that type",
 ]
 CLAIM = {"text": "inside the enumerated bound every read in every allocated frame finds the most recent definition of its value on every path, and "
                  "no two simultaneously live non-copy values overlap in a register",
@@ -1131,6 +1144,7 @@ FAMILIES = {
                   ("useh", "R10l"), ("mov", "D", "R10"), ("mov", "R10", "V"), ("call", "R10"), ("call", "R0"), ("jc", "T")]),
     "usedef": (3, [("def", "D"), ("use", "V"), ("mov", "D", "V"), ("cmp", "V", "V"), ("xdef", "R0"), ("xuse", "R0"), ("xdef", "R10l"), ("xuse", "R10"),
                    ("und", "D"), ("mov", "D", "R0"), ("mov", "R0", "V"), ("defh", "E"), ("useh", "H"), ("jc", "T")]),
+    "lean": (3, [("def", "D"), ("use", "V"), ("mov", "D", "V"), ("use3", "V", "V", "V"), ("jc", "T")]),
     "k2": (2, [("def", "D"), ("use", "V"), ("add", "D", "V", "V"), ("mov", "D", "V"), ("cmp", "V", "V"), ("def", "R0"), ("use", "R0"), ("mov", "D", "R0"),
                ("mov", "R0", "V"), ("defh", "E"), ("useh", "H"), ("call", "R0"), ("jc", "T")]),
     "k5": (5, [("def", "D"), ("use", "V"), ("add", "D", "V", "V"), ("mov", "D", "V"), ("use3", "V", "V", "V"), ("def", "R0"), ("use", "R0"),
@@ -1443,8 +1457,8 @@ def real_worker(p, shard):
 def tiny_plan(ctx):
     """[(family, length)] explored completely in this tier"""
     if ctx.quick:
-        return [("core", 5), ("pre", 4), ("alias", 4), ("usedef", 4), ("k2", 4), ("k5", 4)]
-    return [("core", 6), ("pre", 5), ("alias", 5), ("usedef", 5), ("k2", 5), ("k5", 5)]
+        return [("core", 5), ("pre", 4), ("alias", 4), ("usedef", 4), ("k2", 4), ("k5", 3)]
+    return [("core", 5), ("lean", 6), ("pre", 5), ("alias", 5), ("usedef", 5), ("k2", 5), ("k5", 4)]
 
 
 def run(ctx):
@@ -1455,12 +1469,17 @@ def run(ctx):
     items = []
     for fam, maxlen in plan:
         for length in range(1, maxlen + 1):
-            for f in enum_family(fam, length, upto=2):
+            # work unit = all programs sharing their first 2 (length >= 5: 3) tokens
+            for f in enum_family(fam, length, upto=3 if length >= 5 else 2):
                 items.append((fam, f, length))
     ctx.note("tiny_plan", ["%s<=%d(k=%d)" % (f, n, FAMILIES[f][0]) for f, n in plan])
     ctx.sample({"tiny": "k=3: def v0; def v1; def v2; def v3; use3 v0 v1 v2", "expect": "one value spilled; every read finds its value"})
     items.sort(key=lambda it: (it[2], it[0], it[1]))
-    ctx.pmap(tiny_worker, items, nshards=min(len(items), 512))
+    import os
+    c0 = sum(os.times()[:4])
+    ctx.pmap(tiny_worker, items, nshards=min(len(items), 256))
+    c1 = sum(os.times()[:4])
+    ctx.note("cpu_seconds_tiny_frames", round(c1 - c0))
     # real targets
     srcs = [n for n, _ in real_sources()]
     levels = [0, 2]
@@ -1470,6 +1489,7 @@ def run(ctx):
         real_items += [(t, n, "ir") for n in ir_case_names(target_int_types(t))]
     ctx.note("real_compilations", len(real_items))
     ctx.pmap(real_worker, real_items, nshards=min(len(real_items), 256))
+    ctx.note("cpu_seconds_real_targets", round(sum(os.times()[:4]) - c1))
     ctx.states = ctx.counters.get("k4_states", 0)
     ctx.transitions = ctx.counters.get("k4_transfers", 0)
     ctx.traces = ctx.counters.get("frames_checked", 0)
